@@ -333,7 +333,19 @@ func engineMsg(rng *rand.Rand, n int, tier string, o *Out) {
 			for k := 0; k < cuts && len(payload) > 0; k++ {
 				variants = append(variants, payload[:rng.Intn(len(payload))])
 			}
-			for k := 0; k < 3 && len(payload) > 0; k++ {
+			// directed truncations: exactly in front of EVERY field of the layout (one-byte fields
+			// included: span flags, service length, nh, header key / value lengths, codes) and one
+			// byte into it -- "fails on every strict prefix" where only one-byte fields / empty
+			// strings follow the cut is the case a missing sticky error of a single-byte read hides
+			nPrefix := cuts
+			if len(payload) == 0 {
+				nPrefix = 0
+			}
+			for _, c := range c06MsgFieldCuts(kind, payload) {
+				variants = append(variants, payload[:c])
+				nPrefix++
+			}
+			for k := 0; k < 3 && len(payload) > 0; k++ { // (byte mutations come after the nPrefix prefixes)
 				mut := append([]byte{}, payload...)
 				mut[rng.Intn(min(len(mut), 40))] = byte(pick(rng, 0, 1, 2, 0x7f, 0x80, 0xfe, 0xff))
 				variants = append(variants, mut)
@@ -354,8 +366,8 @@ func engineMsg(rng *rand.Rand, n int, tier string, o *Out) {
 					}
 					obs = decObs(kind, back, rem)
 				}
-				if vi >= 2 && vi < 2+cuts && derr == nil && len(p) < len(payload) && kind != 2 && kind != 3 {
-					verdict = fmt.Sprintf("strict prefix (%d of %d bytes) of a valid kind-%d message decoded without error", len(p), len(payload), kind)
+				if vi >= 2 && vi < 2+nPrefix && derr == nil && len(p) < len(payload) {
+					verdict = fmt.Sprintf("strict prefix (%d of %d bytes) of a valid kind-%d message decoded without error: prefix %x", len(p), len(payload), kind, p[:min(len(p), 64)])
 				}
 				o.Hist(fmt.Sprintf("dec kind=%d err=%v", kind, derr != nil))
 				o.Case("msg_dec", fmt.Sprintf("d%d", id), in, obs, true, verdict)
@@ -441,6 +453,85 @@ func engineMsg(rng *rand.Rand, n int, tier string, o *Out) {
 			}
 		}
 	}
+}
+
+// c06MsgFieldCuts: the offsets at which a field of the message starts (from the layout of the
+// protocol document: init version:2 nh:2 (k~2 v~2)*; call req ttl:4 tracing:8+8+8+1 service~1 nh:1
+// (k~1 v~1)*; call res code:1 tracing nh:1 (k~1 v~1)*; error code:1 tracing message~2; cancel ttl:4
+// tracing why~2), each also one byte further (inside a multi-byte field).  The NUMBER of cuts
+// depends only on the kind, the number of map entries and the payload length (not on the order in
+// which Go emitted the map): of the entries the first six and the last three are used, none when
+// the payload is longer than 20000 bytes (model cost); a cut beyond the payload is the payload
+// itself (no prefix: it carries no verdict).
+func c06MsgFieldCuts(kind int, p []byte) []int {
+	var starts []int
+	pos := 0
+	add := func(n int) { starts = append(starts, pos); pos += n }
+	str := func(lenBytes int) {
+		n := 0
+		if pos+lenBytes <= len(p) {
+			n = int(p[pos])
+			if lenBytes == 2 {
+				n = int(p[pos])<<8 | int(p[pos+1])
+			}
+		}
+		add(lenBytes)
+		add(n)
+	}
+	tracing := func() { add(8); add(8); add(8); add(1) }
+	kvs := func(lenBytes int, count int) {
+		for i := 0; i < count; i++ {
+			mark := len(starts)
+			str(lenBytes)
+			str(lenBytes)
+			if (i >= 6 && i < count-3) || len(p) > 20000 {
+				starts = starts[:mark]
+			}
+		}
+	}
+	count := func(lenBytes int) int {
+		n := 0
+		if pos+lenBytes <= len(p) {
+			n = int(p[pos])
+			if lenBytes == 2 {
+				n = int(p[pos])<<8 | int(p[pos+1])
+			}
+		}
+		add(lenBytes)
+		return n
+	}
+	switch kind {
+	case 0, 1:
+		add(2)
+		kvs(2, count(2))
+	case 2:
+		add(4)
+		tracing()
+		str(1)
+		kvs(1, count(1))
+	case 3:
+		add(1)
+		tracing()
+		kvs(1, count(1))
+	case 4:
+		add(1)
+		tracing()
+		str(2)
+	case 5:
+		add(4)
+		tracing()
+		str(2)
+	}
+	var cuts []int
+	for _, s := range starts {
+		for _, c := range []int{s, s + 1} {
+			if c > len(p) {
+				c = len(p)
+			}
+			cuts = append(cuts, c)
+		}
+	}
+	return cuts
 }
 
 func min(a, b int) int {
